@@ -288,9 +288,7 @@ theorem prepEci_ok {s : S} {r : PrepReq} {b b' : BSC} {e : Option Item}
     b'.curComet = b.curComet + (e.toList.map Item.len).sum ∧
     (b.curComet ≤ b.maxComet → b'.curComet ≤ b'.maxComet) ∧
     ((p.veEnabled s r.height = false ∧ e = none) ∨
-     (p.veEnabled s r.height = true ∧ e = some (.eci (p.eciFull s r).1 (p.eciFull s r).2 true)) ∨
-     (p.veEnabled s r.height = true ∧ e = some (.eci p.eciEmpty.1 p.eciEmpty.2 false) ∧
-        ∃ er, b.cometAdd (p.eciFull s r).2 = .error er)) := by
+     (p.veEnabled s r.height = true ∧ ∃ bid len, e = some (.eci bid len true))) := by
   unfold prepEci at h
   split at h
   · rename_i hve
@@ -301,14 +299,13 @@ theorem prepEci_ok {s : S} {r : PrepReq} {b b' : BSC} {e : Option Item}
         simp at h
         obtain ⟨rfl, rfl⟩ := h
         obtain ⟨h1, h2, h3, h4, h5⟩ := cometAdd_ok hb1
-        refine ⟨h2, h3, h4, by simp [Item.len, h1], fun _ => h5, Or.inr (Or.inl ⟨hve, rfl⟩)⟩
-      · rename_i er her
-        split at h
+        refine ⟨h2, h3, h4, by simp [Item.len, h1], fun _ => h5, Or.inr ⟨hve, _, _, rfl⟩⟩
+      · split at h
         · rename_i b1 hb1
           simp at h
           obtain ⟨rfl, rfl⟩ := h
           obtain ⟨h1, h2, h3, h4, h5⟩ := cometAdd_ok hb1
-          refine ⟨h2, h3, h4, by simp [Item.len, h1], fun _ => h5, Or.inr (Or.inr ⟨hve, rfl, er, her⟩)⟩
+          refine ⟨h2, h3, h4, by simp [Item.len, h1], fun _ => h5, Or.inr ⟨hve, _, _, rfl⟩⟩
         · simp at h
   · rename_i hve
     simp at h
@@ -331,7 +328,7 @@ def InjShape (s : S) (r : PrepReq) (inj : List Item) : Prop :=
   ∃ (up : List Item) (e : Option Item), inj = up ++ e.toList ∧
     (up = [] ∨ ∃ ub ul, up = [Item.upgrade ub ul]) ∧
     ((p.veEnabled s r.height = false ∧ e = none) ∨
-     (p.veEnabled s r.height = true ∧ ∃ bid len wf, e = some (.eci bid len wf))) ∧
+     (p.veEnabled s r.height = true ∧ ∃ bid len, e = some (.eci bid len true))) ∧
     (e.isSome = true → r.lastCommit.isSome = true)
 
 theorem prepInjected_ok {s : S} {r : PrepReq} {b b' : BSC} {inj : List Item}
@@ -341,14 +338,10 @@ theorem prepInjected_ok {s : S} {r : PrepReq} {b b' : BSC} {inj : List Item}
     (b.curComet ≤ b.maxComet → b'.curComet ≤ b'.maxComet) ∧ InjShape p s r inj := by
   have eshape : ∀ {bm : BSC} {e : Option Item}, prepEci p s r bm = .ok (e, b') →
       ((p.veEnabled s r.height = false ∧ e = none) ∨
-       (p.veEnabled s r.height = true ∧ ∃ bid len wf, e = some (.eci bid len wf))) := by
+       (p.veEnabled s r.height = true ∧ ∃ bid len, e = some (.eci bid len true))) := by
     intro bm e he
-    obtain ⟨_, _, _, _, _, hc⟩ := prepEci_ok p he
-    rcases hc with h1 | ⟨h1, h2⟩ | ⟨h1, h2, _⟩
-    · exact Or.inl h1
-    · exact Or.inr ⟨h1, _, _, _, h2⟩
-    · exact Or.inr ⟨h1, _, _, _, h2⟩
-  unfold prepInjected at h
+    exact (prepEci_ok p he).2.2.2.2.2
+  unfold prepInjected prepInjectedWith at h
   split at h
   · split at h
     · simp at h
@@ -385,7 +378,7 @@ theorem stepPrepare_spec {a a' : AppState S} {r : PrepReq} {items : List Item}
       items = proposalItems (p.roots st.s (added.map (·.1))).1 (p.roots st.s (added.map (·.1))).2 inj added ∧
       a'.work = st.s ∧ a'.executedTxs = some added ∧ a'.exec = .prepared (r.fp items) ∧
       a'.committed = a.committed ∧ a'.postResult = none ∧ a'.writeBatch = a.writeBatch := by
-  unfold stepPrepare at h
+  unfold stepPrepare stepPrepareWith at h
   simp only [AppState.reset] at h
   split at h
   · simp at h
@@ -806,12 +799,6 @@ theorem parseItems_proposal {veOn : Bool} (r1 r2 : Nat) {up : List Item} {e : Op
   rcases hup with rfl | ⟨ub, ul, rfl⟩ <;> rcases he with ⟨rfl, rfl⟩ | ⟨rfl, bid, len, rfl⟩ <;>
     cases added <;> simp [proposalItems, parseItems]
 
-/-- … and does not parse if it carries the empty fallback -/
-theorem parseItems_proposal_badeci (r1 r2 bid len : Nat) {up : List Item} (added : List Executed)
-    (hup : up = [] ∨ ∃ ub ul, up = [Item.upgrade ub ul]) :
-    ∃ e, parseItems true (proposalItems r1 r2 (up ++ (some (Item.eci bid len false)).toList) added) = .error e := by
-  rcases hup with rfl | ⟨ub, ul, rfl⟩ <;> simp [proposalItems, parseItems]
-
 /-- the block CometBFT builds from a `PrepareProposal` response -/
 def PrepReq.proposed (r : PrepReq) (items : List Item) (hash : Nat) : Block :=
   { r.asBlock items with hash := some hash }
@@ -830,8 +817,6 @@ theorem prepare_then_process_accepts
     (hi64 : r.maxTxBytes ≤ 2 ^ 63 - 1)
     -- vote-extension enablement at this height does not depend on uncommitted writes
     (hve : ∀ s s', p.veEnabled s r.height = p.veEnabled s' r.height)
-    -- proviso (F12): the extended commit info fitted into max_tx_bytes (no empty fallback item)
-    (hfit : ∀ bid len wf, Item.eci bid len wf ∈ items → wf = true)
     -- pre_execute_transactions depends on the block data only, not on the items / hash
     (hpre : p.pre σ (r.proposed items hash) = p.pre σ (r.asBlock []))
     -- the proposer's own extended commit info validates (C15)
@@ -853,14 +838,7 @@ theorem prepare_then_process_accepts
     have hv : p.veEnabled v.work r.height = p.veEnabled s1 r.height := hve _ _
     show ∃ pd, parseItems (p.veEnabled v.work r.height) items = .ok pd ∧ _
     rw [hv]
-    have hcase : (p.veEnabled s1 r.height = false ∧ eci = none) ∨
-        (p.veEnabled s1 r.height = true ∧ ∃ bid len, eci = some (.eci bid len true)) := by
-      rcases ecase with h1 | ⟨h1, bid, len, wf, h2⟩
-      · exact Or.inl h1
-      · refine Or.inr ⟨h1, bid, len, ?_⟩
-        have : wf = true := hfit bid len wf (by
-          rw [hitems, hinj, h2]; simp [proposalItems])
-        rw [h2, this]
+    have hcase := ecase
     rw [hitems, hinj]
     exact parseItems_proposal _ _ added hup hcase
   obtain ⟨pd, hpd, hr1, hr2, htxs, heci⟩ := hparse
@@ -982,13 +960,13 @@ theorem checkPrepared_false {e e' : ExecState} {c : CachedProposal}
 /-- `prepare_proposal` always starts from the committed state -/
 theorem stepPrepare_init {a : AppState S} {σ : S} (hc : a.committed = σ) (hw : a.writeBatch = none) (r : PrepReq) :
     stepPrepare p a r = stepPrepare p (AppState.init σ) r := by
-  unfold stepPrepare
+  unfold stepPrepare stepPrepareWith
   rw [reset_eq_init hc hw, reset_init]
 
 theorem stepPrepare_err {σ : S} {r : PrepReq} {a' : AppState S} {resp : Resp S}
     (h : stepPrepare p (AppState.init σ) r = (a', resp)) :
     (∃ items, resp = .prepared items) ∨ (a'.exec = .unset ∧ a'.committed = σ ∧ a'.writeBatch = none) := by
-  unfold stepPrepare at h
+  unfold stepPrepare stepPrepareWith at h
   simp only [reset_init] at h
   split at h
   · simp at h; obtain ⟨rfl, rfl⟩ := h; exact Or.inr ⟨rfl, rfl, rfl⟩
@@ -1408,20 +1386,9 @@ theorem prepareCoherent_of_constructible {σ : S} {b : Block}
     have hv : p.veEnabled σ r.height = p.veEnabled s1 r.height := by
       have := hve σ s1; rwa [hbh] at this
     rw [hv] at hparse
-    rcases ecase with ⟨h1, rfl⟩ | ⟨h1, bid, len, wf, rfl⟩
-    · obtain ⟨pd', hpd', _, _, htx', _⟩ := parseItems_proposal (veOn := p.veEnabled s1 r.height)
-        (p.roots st.s (ex.map (·.1))).1 (p.roots st.s (ex.map (·.1))).2 (up := up) (e := none) ex hup (Or.inl ⟨h1, rfl⟩)
-      rw [hpd'] at hparse; injection hparse with hparse; rw [← hparse]; exact htx'
-    · cases wf with
-      | true =>
-        obtain ⟨pd', hpd', _, _, htx', _⟩ := parseItems_proposal (veOn := p.veEnabled s1 r.height)
-          (p.roots st.s (ex.map (·.1))).1 (p.roots st.s (ex.map (·.1))).2 (up := up) (e := some (.eci bid len true)) ex hup
-          (Or.inr ⟨h1, bid, len, rfl⟩)
-        rw [hpd'] at hparse; injection hparse with hparse; rw [← hparse]; exact htx'
-      | false =>
-        rw [h1] at hparse
-        obtain ⟨e, hbad⟩ := parseItems_proposal_badeci (p.roots st.s (ex.map (·.1))).1 (p.roots st.s (ex.map (·.1))).2 bid len ex hup
-        rw [hbad] at hparse; simp at hparse
+    obtain ⟨pd', hpd', _, _, htx', _⟩ := parseItems_proposal (veOn := p.veEnabled s1 r.height)
+      (p.roots st.s (ex.map (·.1))).1 (p.roots st.s (ex.map (·.1))).2 (up := up) (e := eci) ex hup ecase
+    rw [hpd'] at hparse; injection hparse with hparse; rw [← hparse]; exact htx'
   have hpreb : p.pre σ b = .ok s1 := (hpre r items hfp).trans hpre1
   have hrun : Runs p s1 ex st.s := by simpa [LoopSt.init] using hext.runs
   have hconstr : constructAll p s1 pd.txs = .ok (ex.map (·.1)) := by
@@ -1542,13 +1509,11 @@ theorem process_accept_items {a a' : AppState S} {b : Block} {σ : S} {ex1 : Exe
   · intro t ht; obtain ⟨e, he, rfl⟩ := List.mem_map.mp ht; exact hcons e he
   · rw [← seqSum_map]; exact hseq
 
-/-- **the proposer validating its own proposal**: accepted whenever the extended commit info is
-the well-formed one and post-execution succeeds -/
+/-- **the proposer validating its own proposal**: accepted whenever post-execution succeeds -/
 theorem prepare_then_own_process_accepts
     {a a1 : AppState S} {r : PrepReq} {items : List Item} {σ : S} {hash : Nat}
     (hprep : stepPrepare p a r = (a1, .prepared items)) (hσ : a.committed = σ)
     (hve : ∀ s s', p.veEnabled s r.height = p.veEnabled s' r.height)
-    (hfit : ∀ bid len wf, Item.eci bid len wf ∈ items → wf = true)
     (hpost : ∀ ex, a1.executedTxs = some ex → ∃ s'' aux, p.post a1.work (r.proposed items hash) ex = .ok (s'', aux)) :
     (stepProcess p a1 (r.proposed items hash)).2 = .accept := by
   obtain ⟨s1, inj, added, bsc0, bsc1, st, hpre1, hb, he, hl, hext, hsub, hitems, hwork, hex, hexec, _, hpr, _⟩ :=
@@ -1560,13 +1525,7 @@ theorem prepare_then_own_process_accepts
     have hv : p.veEnabled a1.work r.height = p.veEnabled s1 r.height := hve _ _
     show ∃ pd, parseItems (p.veEnabled a1.work r.height) items = .ok pd
     rw [hv]
-    have hcase : (p.veEnabled s1 r.height = false ∧ eci = none) ∨
-        (p.veEnabled s1 r.height = true ∧ ∃ bid len, eci = some (.eci bid len true)) := by
-      rcases ecase with h1 | ⟨h1, bid, len, wf, h2⟩
-      · exact Or.inl h1
-      · refine Or.inr ⟨h1, bid, len, ?_⟩
-        have : wf = true := hfit bid len wf (by rw [hitems, hinj, h2]; simp [proposalItems])
-        rw [h2, this]
+    have hcase := ecase
     rw [hitems, hinj]
     obtain ⟨pd, hpd, _⟩ := parseItems_proposal (p.roots st.s (added.map (·.1))).1 (p.roots st.s (added.map (·.1))).2 added hup hcase
     exact ⟨pd, hpd⟩
